@@ -32,6 +32,7 @@ def named_const(e, c):
         'i64::MIN': I64_MIN, 'i64::MAX': I64_MAX, 'core::num::<impl i64>::MIN': I64_MIN, 'core::num::<impl i64>::MAX': I64_MAX,
         'u32::MAX': (1 << 32) - 1, 'core::num::<impl u32>::MAX': (1 << 32) - 1, 'i32::MIN': -(1 << 31), 'core::num::<impl i32>::MIN': -(1 << 31),
         'i32::MAX': (1 << 31) - 1, 'core::num::<impl i32>::MAX': (1 << 31) - 1,
+        'i128::MIN': -(1 << 127), 'i128::MAX': (1 << 127) - 1, 'core::num::<impl i128>::MIN': -(1 << 127), 'core::num::<impl i128>::MAX': (1 << 127) - 1,
         'usize::MAX': (1 << 64) - 1, 'core::num::<impl usize>::MAX': (1 << 64) - 1,
         'Option::<Infallible>::None': NONE, 'Option::<std::convert::Infallible>::None': NONE,
         'rust_decimal::Decimal::ZERO': dec_const('0'), 'rust_decimal::Decimal::ONE': dec_const('1'),
